@@ -151,7 +151,42 @@ token_sequence
       }
     | token_sequence token_or_range
       {
-        yr_re_node_append_child($1, $2);
+        RE_NODE* tail = $1->children_tail;
+
+        if (tail != NULL &&
+            tail->type == RE_NODE_RANGE_ANY &&
+            $2->type == RE_NODE_RANGE_ANY)
+        {
+          // Two consecutive jumps are equivalent to a single jump whose bounds
+          // are the sums of theirs. They are merged because only a jump with
+          // tokens at both sides can be turned into a chaining point, the
+          // second of two consecutive jumps would be emitted as it is and its
+          // bounds truncated to the 16 bits of the opcode's operands.
+          int64_t start = (int64_t) tail->start + $2->start;
+          int64_t end = (int64_t) tail->end + $2->end;
+
+          if (start > INT_MAX)
+          {
+            yr_re_node_destroy($1);
+            yr_re_node_destroy($2);
+            yyerror(yyscanner, lex_env, "invalid jump length");
+            YYABORT;
+          }
+
+          tail->start = (int) start;
+
+          if (tail->end == INT_MAX || $2->end == INT_MAX || end > INT_MAX)
+            tail->end = INT_MAX;
+          else
+            tail->end = (int) end;
+
+          yr_re_node_destroy($2);
+        }
+        else
+        {
+          yr_re_node_append_child($1, $2);
+        }
+
         $$ = $1;
       }
     ;
